@@ -236,7 +236,7 @@ def read_project(d: Path):
     return out
 
 
-def run_pytest(d: Path, args=(), env=None, stdin=b"", timeout=180, keep_ci=False, tty=False, plugins=()):
+def run_pytest(d: Path, args=(), env=None, stdin=b"", timeout=180, keep_ci=False, tty=False, plugins=(), cwd=None):
     """one real session in project dir d. returns dict(rc, stdout, stderr, outcomes{test: outcome})"""
     junit = d / "junit.xml"
     if junit.exists():
@@ -255,7 +255,7 @@ def run_pytest(d: Path, args=(), env=None, stdin=b"", timeout=180, keep_ci=False
     cmd += list(args)
     for attempt in range(2):
         try:
-            r = sp.run(cmd, cwd=d, capture_output=True, env=e, input=stdin, timeout=timeout)
+            r = sp.run(cmd, cwd=cwd or d, capture_output=True, env=e, input=stdin, timeout=timeout)
             break
         except sp.TimeoutExpired:
             if attempt == 1:
